@@ -474,7 +474,7 @@ func (ex *Exec) evalIndex(e *ast.IndexExpr, st *State, commaOk bool) []Value {
 		stored := st.mapRead(t, ref, k)
 		z := zeroValue(u.Elem())
 		out := Value{T: u.Elem(), L: map[string]*Term{}}
-		for p := range z.L {
+		for _, p := range sortedKeys(z.L) {
 			out.L[p] = mkIte(has, stored.L[p], z.L[p])
 		}
 		st.assumeValid(out)
@@ -883,7 +883,8 @@ func (ex *Exec) toInterface(v Value, t types.Type, st *State) Value {
 		// a boxed non-pointer value is immutable: its leaves are functions of the interface value's identity, so that a
 		// type assertion back to the same type yields the value that was boxed
 		if v.T != nil && len(v.L) > 0 && len(v.L) <= 32 {
-			for p, l := range v.L {
+			for _, p := range sortedKeys(v.L) {
+				l := v.L[p]
 				st.assume(mkEq(mkApp("unboxleaf!"+typeKey(v.T)+"!"+p, l.Sort, id), l))
 			}
 		}
@@ -915,7 +916,9 @@ func (ex *Exec) evalTypeAssert(e *ast.TypeAssertExpr, st *State, commaOk bool) [
 	} else {
 		out = freshValue("unboxed", tt)
 		if len(out.L) > 0 && len(out.L) <= 32 {
-			for p, l := range out.L {
+			for _, p := range sortedKeys(out.L) {
+				l := out.L[p]
+				_ = l
 				out.L[p] = mkApp("unboxleaf!"+typeKey(tt)+"!"+p, l.Sort, x.scalar())
 			}
 		}
@@ -924,7 +927,7 @@ func (ex *Exec) evalTypeAssert(e *ast.TypeAssertExpr, st *State, commaOk bool) [
 	if commaOk {
 		z := zeroValue(tt)
 		r := Value{T: tt, L: map[string]*Term{}}
-		for p := range out.L {
+		for _, p := range sortedKeys(out.L) {
 			r.L[p] = mkIte(isT, out.L[p], z.L[p])
 		}
 		return []Value{r, boolV(isT)}
